@@ -53,6 +53,18 @@ def canon(snap):
 
 def conflict(l1, l2):
     """two links may write the same interaction key or replace the same atom"""
+    def rn(l, atom):
+        own = [attr['resname'] for pn, attr in l['atoms_attr'] if tuple(pn) == tuple(atom) and 'resname' in attr]
+        return set(own) if own else set(l['resnames'] or [])
+    if l1['resnames'] is None or l2['resnames'] is None:
+        # atoms carrying their own residue name: the same molecule atoms only if the names can coincide position by position
+        for sec, rows in l1['inters'].items():
+            for r1 in rows:
+                for r2 in l2['inters'].get(sec, []):
+                    if [n for _, n in r1['atoms']] == [n for _, n in r2['atoms']] and r1['meta'].get('version', 1) == r2['meta'].get('version', 1) \
+                            and all(rn(l1, a) & rn(l2, b) for a, b in zip(r1['atoms'], r2['atoms'])):
+                        return True
+        return False
     k1 = {(sec, tuple(n for _, n in r['atoms']), r['meta'].get('version', 1)) for sec, rows in l1['inters'].items() for r in rows}
     k2 = {(sec, tuple(n for _, n in r['atoms']), r['meta'].get('version', 1)) for sec, rows in l2['inters'].items() for r in rows}
     r1 = {pn[1] for pn, _ in l1['atoms_attr']}
@@ -236,8 +248,14 @@ def run(ctx):
             for gg in (g, g2):
                 gg['edges'] = [tuple(e) for e in gg['edges']]
         else:
-            ff = ffgen.gen_ff(rng, uniform_nrexcl=rng.choice([1, None]))
-            g = ffgen.gen_resgraph(rng, ff)
+            if rng.random() < 0.2:
+                # links whose atoms carry their own residue name, one per arrangement of names over three residues
+                ff, names = ffgen.gen_arrangement_ff(rng)
+                g = ffgen.gen_arrangement_graph(rng, names)
+                ctx.feature('per_atom_resname_links')
+            else:
+                ff = ffgen.gen_ff(rng, uniform_nrexcl=rng.choice([1, None]))
+                g = ffgen.gen_resgraph(rng, ff)
             g2 = ffgen.permute_graph(rng, g)
             ff2 = reorder_ff(rng, ff)
         text = ffgen.render_ff(ff)
